@@ -47,13 +47,29 @@ KEYS = ["k", "x", "size", "first", "n"]
 PLAIN_FILTERS = ["upcase", "downcase", "size", "first", "last", "strip", "capitalize", "json"]
 ARG_FILTERS = ["append", "prepend", "default", "join", "plus", "remove"]
 LAMBDA_FILTERS = ["map", "where", "reject", "find", "has"]
-PARTIALS = ["p0", "p1", "p2.html"]
+PARTIALS = ["p0", "p1", "p2.html", "card.item.liquid", "snippets/card.liquid", "dir/q.x.y", "plain"]
+
+
+def stem_of(name: str) -> str:
+    """The name a partial's `with`/`for` value is bound to when there is no alias
+    (the template's file name up to its first dot)."""
+    return name.rsplit("/", 1)[-1].split(".")[0]
+
+
+def stems(names: list[str]) -> list[str]:
+    return [stem_of(n) for n in names if RE_IDENT.fullmatch(stem_of(n))]
 MACROS = ["m0", "m1"]
 BLOCKS = ["b0", "b1"]
 
 
+RE_IDENT = re.compile(r"[a-zA-Z_][a-zA-Z0-9_]*")
+
+
 class Gen:
-    def __init__(self, r: Any, *, partials: list[str], allow_comments: bool = True) -> None:
+    def __init__(self, r: Any, *, partials: list[str], allow_comments: bool = True,
+                 self_name: str = "") -> None:
+        # names a `with`/`for` binding without alias may give this template or its partials
+        self.stems = stems(partials + ([self_name] if self_name else []))
         self.in_tstr = 0
         self.r = r
         self.partials = partials
@@ -64,6 +80,8 @@ class Gen:
     def name(self) -> str:
         r = self.r
         k = r.random()
+        if self.stems and r.random() < 0.15:
+            return r.choice(self.stems)
         if k < 0.5:
             return r.choice(GLOBALS)
         if k < 0.65:
@@ -205,6 +223,34 @@ class Gen:
     def nodes(self, depth: int, n: int, *, liquid: bool = False, in_block: bool = False) -> list[tuple]:
         return [self.node(depth, liquid=liquid, in_block=in_block) for _ in range(n)]
 
+    def repeated_partial(self, liquid: bool) -> tuple:
+        """The same partial used twice with different argument sets, then uses of
+        the argument names at the includer's level (directly and inside a block)."""
+        r = self.r
+        name = r.choice(self.partials)
+        kinds = r.choice([("include", "include"), ("include", "include"), ("render", "render"),
+                          ("include", "render"), ("render", "include")])
+        argsets = r.sample([["x"], ["y"], ["x", "y"], [], ["k"], ["z", "x"]], 2)
+        used = sorted({a for s_ in argsets for a in s_}) or ["x"]
+        out: list[tuple] = []
+        for kind, args in zip(kinds, argsets):
+            e = f"'{name}'"
+            k = r.random()
+            if k < 0.2:
+                e += f" with {self.primitive(0)}"
+            elif k < 0.35:
+                e += f" for {r.choice(LISTS)}" + (f" as {r.choice(used)}" if r.random() < 0.5 else "")
+            if args:
+                e += ", " + ", ".join(f"{a}: {self.primitive(0)}" for a in args)
+            out.append(("t", kind, e))
+            if r.random() < 0.3:
+                out.append(("t", "echo", r.choice(used)))
+        use = r.choice(used)
+        out.append(("t", "echo", self.path(0, root=use)) if liquid or r.random() < 0.5 else ("out", self.path(0, root=use)))
+        if r.random() < 0.6:
+            out.append(("b", "if", self.path(0), [("t", "echo", r.choice(used + ([stem_of(name)] if RE_IDENT.fullmatch(stem_of(name)) else [])))], []))
+        return ("seq", out)
+
     def partial_tag(self) -> tuple:
         r = self.r
         kind = r.choice(["include", "render"]) if self.partials else "echo"
@@ -252,7 +298,9 @@ class Gen:
             items = ", ".join(self.primitive(0) for _ in range(r.randint(1, 3)))
             grp = r.choice(["", "", "g: ", "'h': "])
             return ("t", "cycle", grp + items)
-        if k < 0.40:
+        if k < 0.33 and self.partials:
+            return self.repeated_partial(liquid)
+        if k < 0.42:
             return self.partial_tag()
         if k < 0.44 and self.macros_defined:
             e = r.choice(self.macros_defined + MACROS)
@@ -315,7 +363,9 @@ def show(nodes: list[tuple], r: Any) -> str:
     out = []
     for n in nodes:
         k = n[0]
-        if k == "text":
+        if k == "seq":
+            out.append(show(n[1], r))
+        elif k == "text":
             out.append(n[1])
         elif k == "out":
             a, b = wc(r)
@@ -349,7 +399,9 @@ def show_lines(nodes: list[tuple], ind: int) -> list[str]:
     pad = "  " * ind
     out: list[str] = []
     for n in nodes:
-        if n[0] == "t":
+        if n[0] == "seq":
+            out += show_lines(n[1], ind)
+        elif n[0] == "t":
             out.append(pad + n[1] + " " + n[2])
         elif n[0] == "b":
             _, name, e, body, clauses = n
@@ -369,10 +421,10 @@ def gen_program(r: Any, *, depth: int, size: int, cyclic: bool = False, comments
     """Return {template name: source}; 'main' is the entry point."""
     progs: dict[str, str] = {}
     npart = r.choice([0, 1, 2, 3, 3])
-    names = PARTIALS[:npart]
+    names = r.sample(PARTIALS, npart)
     # partial i may refer to partials j > i only (no runtime recursion) unless cyclic
     for i in reversed(range(npart)):
-        g = Gen(r, partials=names if cyclic else names[i + 1:], allow_comments=comments)
+        g = Gen(r, partials=names if cyclic else names[i + 1:], allow_comments=comments, self_name=names[i])
         progs[names[i]] = show(g.nodes(max(depth - 1, 0), r.randint(0, max(1, size // 2))), r)
     inherit = r.random() < 0.35
     g = Gen(r, partials=names, allow_comments=comments)
@@ -448,6 +500,10 @@ class Unsupported(Exception):
     pass
 
 
+# set by Engine.load_all while a template is reified: id(path token) -> (template, start, stop)
+_REIFY: dict[str, Any] = {"tn": None, "tokens": None}
+
+
 def _tok(node: Any) -> tuple:
     from liquid2.token import is_lines_token, is_raw_token, is_tag_token
     t = node.token
@@ -494,6 +550,8 @@ def reify_expr(e: Any) -> tuple:
                 raise Unsupported(f"segment {s!r}")
         if not segs or segs[0][0] != "n":
             raise Unsupported("path root is not a name")
+        if _REIFY["tokens"] is not None:
+            _REIFY["tokens"][id(e.token)] = (_REIFY["tn"], e.token.start, e.token.stop)
         return ("path", e.token.start, e.token.stop, segs)
     if c is X.FilteredExpression:
         return ("filt", reify_expr(e.left), [reify_filter(f) for f in (e.filters or [])])
@@ -668,6 +726,7 @@ class Engine:
         for name in list(self.env.filters):
             self.env.filters[name] = RecordingFilter(name, self.env.filters[name], self.sink)
         self.owner: dict[int, Any] = {}
+        self.tok_owner: dict[int, tuple] = {}
         self.reified: dict[str, list[tuple]] = {}
         self.parsed: dict[str, Any] = {}
 
@@ -675,7 +734,11 @@ class Engine:
         for name in self.templates:
             t = self.env.get_template(name)
             self.parsed[name] = t
-            self.reified[name] = [reify_node(n, self.owner, name) for n in t.nodes]
+            _REIFY["tn"], _REIFY["tokens"] = name, self.tok_owner
+            try:
+                self.reified[name] = [reify_node(n, self.owner, name) for n in t.nodes]
+            finally:
+                _REIFY["tn"], _REIFY["tokens"] = None, None
 
     def main(self) -> Any:
         return self.parsed["main"]
@@ -766,7 +829,7 @@ class Hooks:
         orig_get = RenderContext.get
 
         def ctx_get(self_: Any, path: Any, **kw: Any) -> Any:
-            events.append(("L", path[0]))
+            events.append(("L", path[0], id(kw.get("token"))))
             return orig_get(self_, path, **kw)
 
         self.patch(RenderContext, "get", ctx_get)
@@ -830,11 +893,15 @@ class Hooks:
             orig_rto = cls.render_to_output
 
             def rto(self_: Any, context: Any, buffer: Any, _orig: Any = orig_rto) -> int:
-                frames.append({"need": self_.var is not None})
+                fr = {"need": self_.var is not None, "partial": True, "ns": None}
+                frames.append(fr)
                 try:
                     return _orig(self_, context, buffer)
                 finally:
                     frames.pop()
+                    if fr["ns"] is not None:
+                        # the names the engine really bound for the partial
+                        events.append(("B", id(self_), tuple(sorted(map(str, fr["ns"])))))
 
             self.patch(cls, "render_to_output", rto)
 
@@ -856,6 +923,24 @@ class Hooks:
                 raise
 
         self.patch(extends_tag.BlockDrop, "__getitem__", drop_getitem)
+
+        orig_extend = RenderContext.extend
+
+        def extend(self_: Any, namespace: Any, template: Any = None) -> Any:
+            if template is not None and frames and frames[-1].get("partial") and frames[-1]["ns"] is None:
+                frames[-1]["ns"] = namespace
+            return orig_extend(self_, namespace, template)
+
+        self.patch(RenderContext, "extend", extend)
+
+        orig_copy = RenderContext.copy
+
+        def copy(self_: Any, token: Any, *, namespace: Any, **kw: Any) -> Any:
+            if kw.get("template") is not None and frames and frames[-1].get("partial") and frames[-1]["ns"] is None:
+                frames[-1]["ns"] = namespace
+            return orig_copy(self_, token, namespace=namespace, **kw)
+
+        self.patch(RenderContext, "copy", copy)
 
         orig_limit = RenderContext.raise_for_loop_limit
 
@@ -1126,7 +1211,7 @@ def model_events(eng: Engine, events: list[tuple]) -> list[str] | None:
     while i < len(events):
         e = events[i]
         if e[0] in ("L", "R"):
-            glob = i + 1 < len(events) and events[i + 1] == ("G", e[1])
+            glob = i + 1 < len(events) and events[i + 1][:2] == ("G", e[1])
             ctor = "EvLookup" if e[0] == "L" else "EvResolve"
             out.append(f"({ctor} {C.cstr(e[1])} {'KGlobal' if glob else 'KBound'})")
             i += 2 if glob else 1
@@ -1134,6 +1219,8 @@ def model_events(eng: Engine, events: list[tuple]) -> list[str] | None:
             return None   # the global mapping was read outside get()/resolve()
         elif e[0] == "F":
             out.append(f"(EvFilter {C.cstr(e[1])} false)")
+            i += 1
+        elif e[0] == "B":
             i += 1
         else:
             tg = tag_of(eng, e)
@@ -1264,7 +1351,7 @@ def usage_findings(eng: Engine, a: dict[str, Any], run: dict[str, Any], bound: s
                 out.append(("variable-unreported", f"render looked up {e[1]!r}; analyze().variables does not list it", {"name": e[1]}))
         elif e[0] == "G":
             prev = evs[i - 1] if i else None
-            if prev is not None and prev == ("R", e[1]):
+            if prev is not None and prev[:2] == ("R", e[1]):
                 if e[1] not in globs:
                     out.append(("implicit-context-lookup",
                                 f"a filter or tag read {e[1]!r} from the global namespace through RenderContext.resolve; it is not reported", {"name": e[1]}))
@@ -1286,6 +1373,115 @@ def usage_findings(eng: Engine, a: dict[str, Any], run: dict[str, Any], bound: s
             if (tg[0], (tg[1], tg[2], tg[3])) not in tags:
                 sig = "raw-tag-unreported" if tg[0] == "raw" else "tag-unreported"
                 out.append((sig, f"render executed tag {tg[0]!r} of template {tg[1]!r} at {tg[2]}..{tg[3]}; analyze().tags does not list that location", {"tag": tg}))
+    return out
+
+
+def binding_structure(eng: Engine) -> tuple[set[str], dict[str, set[str]]]:
+    """(names bound by anything but a partial tag, name -> templates in which a
+    partial-tag binding of that name is visible)."""
+    hard: set[str] = set()
+    binds: list[tuple[str, set[str]]] = []          # (target template, names)
+    shares: dict[str, set[str]] = {}                 # template -> templates sharing its scope
+
+    def ex(e: Any) -> None:
+        if isinstance(e, tuple):
+            if e and e[0] == "lam":
+                hard.update(e[1])
+            for x in e:
+                ex(x)
+        elif isinstance(e, list):
+            for x in e:
+                ex(x)
+
+    def nd(n: tuple, tn: str) -> None:
+        k = n[0]
+        if k in ("NAssign", "NCapture", "NIncrement", "NDecrement"):
+            hard.add(n[2][0])
+        elif k == "NFor":
+            hard.update([n[2][1], "forloop"])
+        elif k == "NWith":
+            hard.update(a for a, _ in n[2])
+        elif k == "NMacro":
+            hard.update([p for p, _ in n[3]] + ["args", "kwargs"])
+        elif k == "NBlock":
+            hard.add("block")
+        elif k in ("NInclude", "NRender"):
+            names = {a for a, _ in n[6]}
+            if n[4] is not None:
+                names.add(n[5] if n[5] is not None else stem_of(n[2]))
+            if k == "NRender" and n[3]:
+                names.add("forloop")
+            binds.append((n[2], names))
+            if k == "NInclude":
+                shares.setdefault(tn, set()).add(n[2])
+        elif k == "NExtends":
+            shares.setdefault(tn, set()).add(n[2])
+        for x in n[1:]:
+            if isinstance(x, tuple) and x and isinstance(x[0], str) and x[0][:1] in "NW" and len(x[0]) > 1:
+                nd(x, tn)
+            elif isinstance(x, list):
+                for y in x:
+                    if isinstance(y, tuple) and y and isinstance(y[0], str) and y[0][:1] in "NW" and len(y[0]) > 1:
+                        nd(y, tn)
+            ex(x)
+
+    for tn, nodes in eng.reified.items():
+        for n in nodes:
+            nd(n, tn)
+    under: dict[str, set[str]] = {}
+    for target, names in binds:
+        todo, reach = [target], set()
+        while todo:
+            t = todo.pop()
+            if t in reach:
+                continue
+            reach.add(t)
+            todo += list(shares.get(t, ()))
+        for x in names:
+            under.setdefault(x, set()).update(reach)
+    return hard, under
+
+
+def scope_findings(eng: Engine, a: dict[str, Any], run: dict[str, Any]) -> list[tuple[str, str, dict]]:
+    """Two location-aware checks of the globals clause.
+    (a) a name that only partial tags bind (include/render arguments, alias, name
+        stem) is not visible outside the partials it is handed to: a lookup of it
+        elsewhere that reaches the global mapping must be reported as a global at
+        that very location;
+    (b) the names the engine really binds for a partial must be the names
+        partial_scope() declares (plus forloop for `render ... for`)."""
+    out: list[tuple[str, str, dict]] = []
+    hard, under = binding_structure(eng)
+    glob_locs = {(k, sp) for k, vs in a["globals"] for _, sp in vs}
+    evs = run["events"]
+    for i, e in enumerate(evs):
+        if e[0] == "L" and i + 1 < len(evs) and evs[i + 1][:2] == ("G", e[1]):
+            x, loc = e[1], eng.tok_owner.get(e[2])
+            if loc is None or x in hard or x not in under or loc[0] in under[x]:
+                continue
+            if (x, loc) not in glob_locs:
+                out.append(("partial-argument-leaks-into-outer-scope",
+                            f"{x!r} is bound only as an argument of a partial; its use in template {loc[0]!r} at "
+                            f"{loc[1]}..{loc[2]} read the global namespace but is not reported as a global there",
+                            {"name": x, "location": loc}))
+        elif e[0] == "B":
+            own = eng.owner.get(e[1])
+            if own is None:
+                continue
+            node = own[1]
+            args = {a.name for a in node.args}
+            declared = {str(i_) for i_ in node.partial_scope().in_scope}
+            runtime = set(e[2]) - ({"forloop"} if type(node).__name__ == "RenderNode" else set())
+            # (arguments are bound under their own names on both sides; the question is the
+            # name of the `with`/`for` value) a name that partial_scope() declares, that a
+            # template can write as a variable, and that the engine did not bind would be
+            # looked up in the global namespace and never be reported as a global
+            if node.var is not None and runtime - args:
+                phantom = sorted(x for x in declared - args - runtime if RE_IDENT.fullmatch(x))
+                if phantom:
+                    out.append(("partial-binding-name-differs",
+                                f"{type(node).__name__} of {str(node.name.value)!r} bound {sorted(runtime - args)} at run "
+                                f"time; partial_scope() declares {phantom} instead", {"bound": e[2], "declared": sorted(declared)}))
     return out
 
 
@@ -1320,7 +1516,7 @@ def bound_names(eng: Engine) -> set[str]:
         if k in ("NInclude", "NRender"):
             out.update(a for a, _ in n[6])
             if n[4] is not None:
-                out.add(n[5] if n[5] is not None else n[2].split(".")[0])
+                out.add(n[5] if n[5] is not None else stem_of(n[2]))
             if k == "NRender" and n[3]:
                 out.add("forloop")
         for x in n[1:]:
@@ -1374,6 +1570,17 @@ CORPUS: list[dict[str, str]] = [
     {"main": "{% include 'missing' %}"},
     {"main": "{% render 'a' %}", "a": "{% include 'b' %}", "b": "{{ q }}"},
     {"main": "{% if a %}{% raw %}x{% endraw %}{% endif %}{% comment %}c{% endcomment %}{% for i in l limit: a offset: continue reversed %}{{ i }}{% endfor %}"},
+    # the same partial twice with different arguments, then the argument names at the includer's level
+    {"main": "{% include 'p', x: 1 %}{% include 'p', x: 2 %}{{ x }}{% if a %}{{ x }}{% endif %}", "p": "{{ x }}"},
+    {"main": "{% include 'p', x: 1 %}{{ x }}{% include 'p', y: 2 %}{{ y }}{% for i in l %}{{ x }}{% include 'p' %}{{ y }}{% endfor %}", "p": "{{ x }}{{ y }}"},
+    {"main": "{% render 'p', x: 1 %}{% render 'p', y: 2 %}{{ x }}{{ y }}{% include 'p', k: 1 %}{{ k }}{% render 'p' for l as k %}{{ k }}", "p": "{{ x }}{{ y }}{{ k }}"},
+    {"main": "{% include 'q' %}{{ x }}{% include 'q' %}{{ x }}", "q": "{% include 'p', x: 1 %}{% include 'p', x: 2 %}{{ x }}", "p": "{{ x }}"},
+    {"main": "{% include 'p' with a as x %}{% include 'p' for l as x, y: 1 %}{{ x }}{{ y }}{% liquid\n  include 'p', z: 1\n  include 'p', z: 2\n  echo z\n%}", "p": "{{ x }}{{ z }}"},
+    # names bound without alias: derived from the template name
+    {"main": "{% include 'card.item.liquid' with a %}{% render 'card.item.liquid' with b %}{% render 'card.item.liquid' for l %}{% include 'card.item.liquid' for l %}{{ card }}",
+     "card.item.liquid": "{{ card }}{{ card.k }}{{ item }}{{ forloop.index }}"},
+    {"main": "{% include 'snippets/card.liquid' with a %}{% render 'snippets/card.liquid' for l %}{% include 'dir/q.x.y' with b %}{% render 'plain' with c %}{% include 'plain' for l %}{{ plain }}",
+     "snippets/card.liquid": "{{ card }}{{ snippets }}", "dir/q.x.y": "{{ q }}{{ x }}{{ dir }}", "plain": "{{ plain }}{{ plain.k }}"},
     {"main": "{% extends 'base' %}{% block b %}{% assign q = 1 %}{{ block.super }}{{ q }}{% endblock %}", "base": "{% block b %}{{ q }}{% assign w = 2 %}{% endblock %}{{ w }}"},
 ]
 CORPUS_DATA = [{"a": 1, "b": 2, "c": 3, "d": "s", "e": {"f": "k"}, "f": 1, "g": 1, "l": [{"k": 1}, {"k": 0}]},
@@ -1416,7 +1623,7 @@ def observe_witness(sig: str, templates: dict[str, str], data: dict[str, Any]) -
         evs = run["events"]
         globs = {k for k, _ in a["globals"]}
         for i, e in enumerate(evs):
-            if e[0] == "G" and i and evs[i - 1] == ("R", e[1]) and e[1] not in globs:
+            if e[0] == "G" and i and evs[i - 1][:2] == ("R", e[1]) and e[1] not in globs:
                 return f"{templates['main']!r} reads {e[1]!r} from the global namespace (RenderContext.resolve); not reported by analyze()"
         return None
     for s, what, _ in usage_findings(eng, a, run, bound_names(eng)):
@@ -1469,7 +1676,7 @@ def main(chk: C.Check, build: C.Build) -> None:
             continue
         seen_programs.add(key)
         stats["programs"] += 1
-        stats["with_partials"] += any(k.startswith("p") for k in progs)
+        stats["with_partials"] += any(k not in ("main", "base", "mid") for k in progs)
         stats["with_inheritance"] += "base" in progs
         st_t = run_static(eng, True)
         st_f = run_static(eng, False)
@@ -1531,8 +1738,8 @@ def main(chk: C.Check, build: C.Build) -> None:
                 stats["tags"] += sum(e[0] == "T" for e in evs)
                 stats["decisions"] += len(run["decisions"])
                 rendered |= {e[3] for e in evs if e[0] == "T"}
-                for sig, what, info in usage_findings(eng, a, run, bn):
-                    chk.finding(sig, what, {**replay, "data": d, **info, "how": "harness/c11.py run_render + usage_findings"})
+                for sig, what, info in usage_findings(eng, a, run, bn) + scope_findings(eng, a, run):
+                    chk.finding(sig, what, {**replay, "data": d, **info, "how": "harness/c11.py run_render + usage_findings/scope_findings"})
                 if run["status"] == "ok":
                     stats["renders_completed"] += 1
                     me = model_events(eng, evs) if len(model_t) < (4 if thorough else 3) else None
